@@ -1,4 +1,5 @@
 import RCE.Proofs.SearchDefs
+import RCE.Proofs.SearchUnfold
 /-! Proofs for C14: the `info` lines of the search (depths 1..k, completeness under a pure depth limit,
     legality of every principal variation).
 
@@ -183,16 +184,7 @@ theorem orderMoves_nil (G : Game P M) (tm : Option M) (k : Option M × Option M)
 
 /-! ### 4. the frame relation holds for every routine of the search -/
 
-def _root_.RCE.Search.QLoop.st : QLoop M → St M
-  | .cut st => st
-  | .done _ st => st
-def _root_.RCE.Search.Loop.st : Loop M → St M
-  | .abort st => st
-  | .cut st => st
-  | .done _ _ _ st => st
-def _root_.RCE.Search.RootLoop.st : RootLoop M → St M
-  | .abort st => st
-  | .done _ _ _ st => st
+-- (`QLoop.st`, `Loop.st`, `RootLoop.st`: the state carried by a loop result, defined in `SearchUnfold`)
 
 theorem R_pvsChild (env : Env) (G : Game P M) (rec : P → Int → Int → Nat → St M → Int × St M)
     (hrec : ∀ c a b d s, R env G s (rec c a b d s).2)
